@@ -1,0 +1,16 @@
+//go:build verif
+
+package openclosepb
+
+// Machine-checked contracts for this package (comment-only; excluded from normal builds).
+
+//@ property C07 C14
+//@ // subscribing is a read: the goroutine aggregates the stored positions into one message whose states ARE the stored
+//@ // positions, so the read mask has to be applied to a copy: what is sent is what FilterClone returned (which leaves its
+//@ // argument untouched, masks.(*ResponseFilter).FilterClone#post.argument-untouched), not a message filtered in place.
+//@ // (The aggregation itself uses maps, generic helpers and sort, which are outside the subset: only this step is decided.)
+//@ func (*Model).PullPositions$1()
+//@   option only step
+//@   track FilterClone
+//@   onsend send [mask-on-a-copy]: istype(lastcall(FilterClone), *traits.OpenClosePositions) && sent.Positions == cast(lastcall(FilterClone), *traits.OpenClosePositions)
+//@   replay OpenClosePullMaskIntact()
